@@ -2298,6 +2298,10 @@ func (lexer *Lexer) tryToDecodeEscapeSequences(start int, text string, reportErr
 
 				// Forbid the use of octal literals other than "\0"
 				if isBad || text[octalStart:i] != "\\0" {
+					// The cooked value of such a template literal is undefined
+					if !reportErrors {
+						return nil, false, start + octalStart
+					}
 					lexer.LegacyOctalLoc = logger.Loc{Start: int32(start + octalStart)}
 				}
 
@@ -2305,6 +2309,9 @@ func (lexer *Lexer) tryToDecodeEscapeSequences(start int, text string, reportErr
 				c = c2
 
 				// Forbid the invalid octal literals "\8" and "\9"
+				if !reportErrors {
+					return nil, false, start + i - 2
+				}
 				lexer.LegacyOctalLoc = logger.Loc{Start: int32(start + i - 2)}
 
 			case 'x':
@@ -2375,6 +2382,9 @@ func (lexer *Lexer) tryToDecodeEscapeSequences(start int, text string, reportErr
 						isFirst = false
 					}
 
+					if isOutOfRange && !reportErrors {
+						return nil, false, start + hexStart
+					}
 					if isOutOfRange && reportErrors {
 						lexer.addRangeError(logger.Range{Loc: logger.Loc{Start: int32(start + hexStart)}, Len: int32(i - hexStart)},
 							"Unicode escape sequence is out of range")
